@@ -12,7 +12,7 @@ def Helper.eol (h : Helper) : Bool := h.pos ≥ h.toks.length
 
 structure XState where
   stack : List Helper        -- head = parser_stack[-1]
-  noExp : List String        -- head = no_expand[-1]
+  noExp : List (Option String)   -- head = no_expand[-1]; `none` = Python's None (outermost stream, argument pre-expansion)
 deriving Repr, Inhabited
 
 abbrev Table := List (String × Macro)
@@ -27,7 +27,7 @@ def maxLevel : Nat := 200
 
 def filterSome (l : List (Option Tok)) : List Tok := l.filterMap id
 
-/-- pop(): splice the exhausted top stream into the one below -/
+/-- pop(): splice the exhausted top stream into the one below, the read position ends up behind the spliced tokens -/
 def xpop : XM Unit := do
   let st ← get
   match st.stack with
@@ -37,7 +37,7 @@ def xpop : XM Unit := do
     if top.pre then throw .endOfParse
     let start := filterSome (below.toks.take below.pos)
     let newToks := (start ++ filterSome top.toks ++ filterSome (below.toks.drop below.pos)).map some
-    set ({ stack := { below with toks := newToks, pos := start.length } :: rest, noExp := st.noExp.tail } : XState)
+    set ({ stack := { below with toks := newToks, pos := start.length + (filterSome top.toks).length } :: rest, noExp := st.noExp.tail } : XState)
 
 /-- pop while the top stream is exhausted -/
 def popWhileEol : Nat → XM Unit
@@ -53,7 +53,7 @@ def overflowCheck : XM Unit := do
   if st.stack.length ≥ maxLevel then throw .overflow
 
 def xpush (toks : List Tok) (ident : String) : XM Unit := do
-  modify fun st => { stack := ⟨toks.map some, 0, false⟩ :: st.stack, noExp := ident :: st.noExp }
+  modify fun st => { stack := ⟨toks.map some, 0, false⟩ :: st.stack, noExp := some ident :: st.noExp }
   overflowCheck
 
 def topHelper : XM Helper := do
@@ -132,7 +132,7 @@ partial def expandLoop (tbl : Table) : XM Unit := do
         expandLoop tbl
     else
       let st ← get
-      if !ctok.expandable || st.noExp.contains ctok.text then
+      if !ctok.expandable || st.noExp.contains (some ctok.text) then
         backUp
         replaceTok { ctok with expandable := false }
         expandLoop tbl
@@ -181,7 +181,7 @@ partial def collectArgs (args : List (List Tok)) (cur : List Tok) (depth : Nat) 
 partial def expandCall (tbl : Table) (toks : List Tok) (pre : Bool) : XM (List Tok) := do
   overflowCheck
   if toks.isEmpty then return toks
-  modify fun st => { stack := ⟨toks.map some, 0, pre⟩ :: st.stack, noExp := "None" :: st.noExp }
+  modify fun st => { stack := ⟨toks.map some, 0, pre⟩ :: st.stack, noExp := none :: st.noExp }
   try
     expandLoop tbl
     return []     -- unreachable: the loop only ends by a signal
